@@ -310,9 +310,9 @@ def run(ctx):
     # updates through the Verify, the ChainTip and the Historic rule, with and without shard metadata
     need = {"scan_extents_differ": 8, "scan_needs_S": 2, "scan_needs_O": 3, "tip_verify": 4, "tip_verify-empty": 1,
             "tip_chaintip": 10, "tip_historic": 10, "tip_historic+shard": 1, "tip_shard_above_scanned": 1,
-            "prune_none": 5, "prune_some": 20, "prune_deleted": 5, "prune_demoted": 5, "prune_island": 1,
-            "rescan": 10, "rescan_over_scanned": 3, "rewind_truncated": 3, "rewind_no-truncation": 2,
-            "rewind_blocks-removed": 2, "rewind_rescans-kept-blocks": 1}
+            "prune_none": 3, "prune_some": 20, "prune_deleted": 5, "prune_demoted": 5, "prune_island": 1,
+            "rescan": 10, "rescan_over_scanned": 3, "rewind_trunc": 3, "rewind_none": 2,
+            "rewind_removed": 2, "rewind_kept": 1}
     if not ctx.quick():
         need.update({"scan_needs_I": 2, "scan_extents_differ": 30, "tip_shard_above_scanned": 3})
     if not ctx.violations:
